@@ -154,6 +154,8 @@ func genC14(tier string, rng *Rng) {
 	genC14X(tier, rng)
 	genStreamCases(rng, n, 80)
 	genC14XRandom(tier, rng)
+	// handlers that consume the stream through the request API (c14api.go)
+	genC14Api(tier, rng)
 }
 
 // genStreamCases: random streams served with StreamRequestBody and a consumption program.
